@@ -4,7 +4,7 @@
 (* specification fixes one, and the table of small all-explicit transactions with Verify's verdict. *)
 EXTENDS MC_Blind, Json, IOUtils, FiniteSetsExt
 
-Shape(sk) == [ins |-> [k \in DOMAIN sk.ins |-> [asset |-> sk.ins[k].asset, v |-> sk.ins[k].v, conf |-> sk.ins[k].conf]],
+Shape(sk) == [ins |-> [k \in DOMAIN sk.ins |-> [asset |-> sk.ins[k].asset, v |-> sk.ins[k].v, mode |-> sk.ins[k].mode]],
               iss_on |-> sk.iss.on, iss_v |-> sk.iss.v, iss_vc |-> sk.iss.vc, iss_tv |-> sk.iss.tv, iss_tc |-> sk.iss.tc, manual |-> sk.manual,
               outs |-> [k \in DOMAIN sk.outs |-> [asset |-> sk.outs[k].asset, v |-> sk.outs[k].v, marked |-> sk.outs[k].marked, want |-> sk.outs[k].want,
                                                   fee |-> sk.outs[k].fee, burn |-> (sk.outs[k].v = 0)]]]
@@ -26,16 +26,20 @@ Tampers(sk) ==
   \cup (IF sk.iss.on # 0 /\ sk.iss.v > 0 THEN { T("issuance_amount", 0, 0, IF sk.iss.vc THEN "any" ELSE "BalanceCheckFailed") } ELSE {})
   \cup (IF sk.iss.on # 0 /\ sk.iss.tv > 0 THEN { T("issuance_tokens", 0, 0, IF sk.iss.tc THEN "any" ELSE "BalanceCheckFailed") } ELSE {})
   \cup { T(kind, i, 0, "any") : kind \in {"utxo_value", "utxo_asset"}, i \in DOMAIN sk.ins }
-  \cup { T(kind, i, 0, "any") : kind \in {"utxo_vbf", "utxo_abf"}, i \in { x \in DOMAIN sk.ins : sk.ins[x].conf } }
+  \cup { T("utxo_vbf", i, 0, "any") : i \in { x \in DOMAIN sk.ins : IVConf(sk.ins[x]) } }
+  \cup { T("utxo_abf", i, 0, "any") : i \in { x \in DOMAIN sk.ins : IAConf(sk.ins[x]) } }
   \cup { T("utxo_drop_last", 0, 0, "UtxoInputLenMismatch"), T("utxo_extra", 0, 0, "UtxoInputLenMismatch") }
 BlindCases == { [sk |-> Shape(sk), tampers |-> SetToSeq(Tampers(sk))] : sk \in Sk }
 
 \* all-explicit table ---------------------------------------------------------------------------
 ExplMax == atoi(IOEnv.GEN_EXPL_OUTS)
 EIns  == UNION { [1..n -> [asset : {"A", "B"}, v : 1..2]] : n \in 1..2 }
-EOuts == UNION { [1..n -> [asset : {"A", "B", "N", "T"}, v : 0..2, script : {"std", "unspendable"}]] : n \in 1..ExplMax }
+\* zero values are tried on every script class: standard, OP_RETURN, empty, exactly the maximal size (still spendable), one byte more
+EOutKinds == [asset : {"A", "B", "N", "T"}, v : 1..2, script : {"std", "unspendable"}]
+             \cup [asset : {"A", "B", "N", "T"}, v : {0}, script : {"std", "unspendable", "empty", "big10000", "big10001"}]
+EOuts == UNION { [1..n -> EOutKinds] : n \in 1..ExplMax }
 MkE(ins, outs, isson) ==
-  [ins |-> [k \in DOMAIN ins |-> I(ins[k].asset, ins[k].v, FALSE, 0, 0)],
+  [ins |-> [k \in DOMAIN ins |-> I(ins[k].asset, ins[k].v, "expl", 0, 0)],
    iss |-> IF isson = 0 THEN NoIss ELSE IF isson = 1 THEN Iss(1, FALSE, 0, 0, FALSE, 0) ELSE IF isson = 2 THEN Iss(0, FALSE, 0, 1, FALSE, 0) ELSE Iss(1, FALSE, 0, 1, FALSE, 0),
    outs |-> [k \in DOMAIN outs |-> [O(outs[k].asset, outs[k].v) EXCEPT !.script = outs[k].script]]]
 ExplicitCases == { LET t == MkE(i, o, n) IN [ins |-> i, outs |-> o, iss |-> n, verdict |-> Verify(t, t.ins)] : i \in EIns, o \in EOuts, n \in 0..3 }
